@@ -58,16 +58,21 @@ func c10WrapperTable(c *Ctx, a *sketchAnchors, rule string) {
 		skipOK: func(p *Path) bool {
 			set, ok := p.Classes["count"]
 			return ok && set&^(1<<uint(classOfPoint(0))) == 0
-		}, skipWhy: "weight is exactly 0"})
+		}, skipWhy: "weight is exactly 0",
+		mustSkip: func(p *Path) bool {
+			set, ok := p.Classes["count"]
+			return !ok || set.has(classOfPoint(0))
+		}, mustSkipWhy: "a value added with weight exactly 0 leaves the statistics (min/max included) alone"})
 	n += checkWrapper(c, a, wrapperSpec{rule: rule, method: "Add", inner: "Add",
-		innerArgs: []func(*Term) bool{isParamN(1)}, stat: "Add", statArgs: []func(*Term) bool{isParamN(1), isConstS("1")}})
+		innerArgs: []func(*Term) bool{isParamN(1)}, stat: "Add", statArgs: []func(*Term) bool{isParamN(1), isConstS("1")},
+		altInner: "AddWithCount", altArgs: []func(*Term) bool{isParamN(1), isConstS("1")}})
 	n += checkWrapper(c, a, wrapperSpec{rule: rule, method: "MergeWith", inner: "MergeWith",
 		innerArgs: []func(*Term) bool{func(t *Term) bool { return t.Op == "field" && t.Sym == a.innerFld && t.Args[0].isParam(1) }},
 		stat:      "MergeWith", statArgs: []func(*Term) bool{func(t *Term) bool { return t.Op == "field" && t.Sym == a.statField && t.Args[0].isParam(1) }}})
 	n += checkWrapper(c, a, wrapperSpec{rule: rule, method: "Reweight", inner: "Reweight", innerArgs: []func(*Term) bool{isParamN(1)},
 		stat: "Reweight", statArgs: []func(*Term) bool{isParamN(1)}})
 	n += checkWrapper(c, a, wrapperSpec{rule: rule, method: "Clear", inner: "Clear", stat: "Clear"})
-	c.R.floor(rule, "wrapper paths (Add, AddWithCount, MergeWith, Reweight, Clear)", n, 10)
+	c.R.floor(rule, "wrapper paths (Add, AddWithCount, MergeWith, Reweight, Clear)", n, 8) // 3 fallible wrappers × (error, success) + MergeWith + Clear
 }
 
 func c10WrapperCopyChange(c *Ctx, a *sketchAnchors, rule string, part string) {
